@@ -262,9 +262,16 @@ def check_ops_constantfolder(ctx: Ctx):
         for k, v in zip(d.keys, d.values):
             ctx.check(isinstance(k, ast.Constant) and norm(v) == k.value, "DP-OPS", ini, f"builtin '{k.value}' folded by {norm(v)}", "", f"the name `{k.value}` is folded with the builtin `{norm(v)}`", v)
     cf_if = ci.methods.get("visit_IfExp")
-    r = [x for x in q.returns(cf_if) if isinstance(x.value, ast.IfExp)]
-    ok = len(r) == 1 and norm(r[0].value.body) == "node.body" and norm(r[0].value.orelse) == "node.orelse" and norm(r[0].value.test) == "node.test.value"
-    ctx.check(ok, "MP-polarity", cf_if, "constant condition: true -> body, false -> orelse", "", "a constant if-expression is folded to the wrong branch", cf_if.node)
+    alts = {}
+    for x in q.returns(cf_if):
+        base = [(pat.t(e), pol) for e, pol in guard_facts(cf_if, x)]
+        for v, conds in ([(x.value.body, base + [(pat.t(x.value.test), True)]), (x.value.orelse, base + [(pat.t(x.value.test), False)])] if isinstance(x.value, ast.IfExp) else [(x.value, base)]):
+            if pat.t(v) in ("node.body", "node.orelse"):
+                alts.setdefault(pat.t(v), []).append([p_ for f, p_ in conds if f == "node.test.value"])
+    if set(alts) != {"node.body", "node.orelse"} or any(len(v) != 1 or len(v[0]) != 1 for v in alts.values()):
+        ctx.undecided(cf_if.short, "constant if-expression folding: the two branches are not each returned under one test of node.test.value")
+    else:
+        ctx.check(alts["node.body"][0][0] is True and alts["node.orelse"][0][0] is False, "MP-polarity", cf_if, "constant condition: true -> body, false -> orelse", "", "a constant if-expression is folded to the wrong branch: the body is returned when the condition is false", cf_if.node)
     cf_i = ci.methods.get("visit_If")
     ifs = [x for x in walk_no_nested(cf_i.node) if isinstance(x, ast.If) and norm(x.test) == "node.test.value"]
     ok = len(ifs) == 1 and norm(ifs[0].body[0]) == "return node.body" and norm(ifs[0].orelse[0]) == "return node.orelse"
